@@ -460,6 +460,16 @@ def balanced(tokens):
     return depth == 0
 
 
+_PREFIX_ONLY = []
+
+
+def _prefix_only():
+    if not _PREFIX_ONLY:
+        d = load_dict()
+        _PREFIX_ONLY.append(set(t for t, f in d.items() if set(f) == {"PREFIX"}))
+    return _PREFIX_ONLY[0]
+
+
 def wellformed(tokens):
     """still a sentence of the restricted grammar (the shrinker may only produce such)"""
     if not tokens or not balanced(tokens):
@@ -470,7 +480,12 @@ def wellformed(tokens):
         if k in ("infix", "postfix", "close") and (prev is None or prev in ("infix", "prefix", "open")):
             return False            # includes '()' : empty parentheses are not an operand of the restricted grammar
         if k in ("var", "num", "open", "prefix") and prev in ("var", "num", "close", "postfix"):
-            if k == "prefix" or not Gen.adjacent_ok(("", prev if prev != "postfix" else "x"), ("", k)):
+            if k == "prefix":
+                # an operand directly followed by a prefix operator is a juxtaposition only when the operator has NO other form (otherwise
+                # its position makes it infix or postfix), and here only after a postfix operator (n! ∑x): the statement's unique parse
+                if prev != "postfix" or t[0] not in _prefix_only():
+                    return False
+            elif not Gen.adjacent_ok(("", prev if prev != "postfix" else "x"), ("", k)):
                 return False
         prev = k
     return prev in ("var", "num", "close", "postfix")
@@ -500,8 +515,9 @@ def shard(spec):
                 cases.append(([("x", "var"), ("+", "infix"), ("y", "var"), (op, "postfix")], "top"))
                 # a postfix operator directly followed by a prefix operator: the two operands are juxtaposed (implied multiplication)
                 pres = sorted(g.prefix)
-                for p_op in rng.sample(pres, min(6, len(pres))):
+                for p_op in pres:
                     cases.append(([("y", "var"), (op, "postfix"), (p_op, "prefix"), ("x", "var")], rng.choice(CONTEXTS)))
+                for p_op in rng.sample(pres, min(6, len(pres))):
                     cases.append(([("a", "var"), ("+", "infix"), ("y", "var"), (op, "postfix"), (p_op, "prefix"), ("x", "var"), ("+", "infix"), ("b", "var")], "top"))
         for _ in range(spec["n_random"]):
             cases.append((g.row(0, rng.randint(2, 7)), rng.choice(CONTEXTS)))
